@@ -1,6 +1,7 @@
 import GsModel.Props.C15
 import GsModel.Diff.Lift
 import GsModel.Diff.Lift2
+import GsModel.Diff.Lift3
 /-
   C13 — diff never reports a request-breaking change as compatible.
 
@@ -23,7 +24,9 @@ import GsModel.Diff.Lift2
     `foldlM_reach`).  `param_maxLength_lower_reported`, `param_maximum_lower_reported`: two instances end to end.
   * `removed_endpoint_reported_breaking`, `added_required_param_reported_breaking` — the same lifting for the two structural
     request-breaking edits: a live endpoint that disappears, a parameter that appears as required.
-  The lifting for body schemas (through compareSchema, where the visited-key guard can skip a comparison) is decided by the
+  * `body_root_change_reported_breaking`, `body_property_change_reported_breaking` — the lifting for the request body, at the
+    root of an inline (`$ref`-free) schema and for a property both inline object bodies have.
+  The lifting for body schemas below that, through `$ref` (where the visited-key guard can skip a comparison) and allOf (through compareSchema, where the visited-key guard can skip a comparison) is decided by the
   catalogue sweep on the real analyser: partial.
 -/
 namespace Gs.Props.C13
@@ -358,6 +361,63 @@ example : Outcome.Holds (fun ds => ∃ d ∈ ds, d.compat = Compat.Breaking) (an
     (show ("q", paramLen 5) ∈ [("q", paramLen 5)] from List.mem_cons_self)
     _ _ [] [] rfl rfl rfl rfl rfl 10 5 rfl rfl (by decide)
 example : (analyse {} 5 (specLen 10) (specLen 5)).isOk = true := by decide
+
+/-- the request BODY, at the root of an inline (`$ref`-free) schema: a narrowing code found by CompareProps is a Breaking entry
+    of every report -/
+theorem body_root_change_reported_breaking (fl : Flags) (n : Nat) (a b : Spec) (pl : String) (hpl : pl ∈ paramLocations)
+    (um1 um2 : UM) (hum2 : um2 ∈ getURLMethodsFor b) (hf : findUM (getURLMethodsFor a) um2.url um2.method = some um1)
+    (name : String) (p1 p2 : Param)
+    (hp1 : lookup (getParams um1.item.params um1.op.params pl) name = some p1)
+    (hp2 : (name, p2) ∈ getParams um2.item.params um2.op.params pl)
+    (sc1 sc2 : Schema) (e1 : p1.schema = some sc1) (e2 : p2.schema = some sc2) (r1 : sc1.ref = "") (r2 : sc2.ref = "")
+    (c : Code) (hc : c ∈ requestNarrowing) (hdet : ∃ ds, compareProps n sc1 sc2 = .ok ds ∧ c ∈ changes ds) :
+    Outcome.Holds (fun ds => ∃ d ∈ ds, d.compat = Compat.Breaking) (analyse fl (n+1) a b) := by
+  obtain ⟨ds, hcmp, hmem⟩ := hdet
+  obtain ⟨td, htd, hch⟩ := List.mem_map.mp hmem
+  refine analyse_reports_body_change fl (n+1) a b pl hpl um1 um2 hum2 hf name p1 p2 hp1 hp2 sc1 sc2 e1 e2 ?_
+  intro cl st' hcl
+  exact compareSchema_hits_root _ n cl hcl sc1 sc2 st' r1 r2 ds hcmp td htd
+    (by rw [hch]; exact narrowing_is_a_change c hc) (by rw [hch]; exact policy_sound_request c hc)
+
+/-- … and one level down: a property that both inline object bodies have -/
+theorem body_property_change_reported_breaking (fl : Flags) (n : Nat) (a b : Spec) (pl : String) (hpl : pl ∈ paramLocations)
+    (um1 um2 : UM) (hum2 : um2 ∈ getURLMethodsFor b) (hf : findUM (getURLMethodsFor a) um2.url um2.method = some um1)
+    (name : String) (p1 p2 : Param)
+    (hp1 : lookup (getParams um1.item.params um1.op.params pl) name = some p1)
+    (hp2 : (name, p2) ∈ getParams um2.item.params um2.op.params pl)
+    (sc1 sc2 : Schema) (e1 : p1.schema = some sc1) (e2 : p2.schema = some sc2)
+    (o1 : PlainObject sc1) (o2 : PlainObject sc2) (hroot : compareProps (n+1) sc1 sc2 = .ok [])
+    (prop : String) (q1 q2 : Schema) (m1 : (prop, q1) ∈ sc1.props) (m2 : (prop, q2) ∈ sc2.props)
+    (u1 : ∀ y ∈ sc1.props, y.1 = prop → y = (prop, q1)) (u2 : ∀ y ∈ sc2.props, y.1 = prop → y = (prop, q2))
+    (r1 : q1.ref = "") (r2 : q2.ref = "")
+    (c : Code) (hc : c ∈ requestNarrowing) (hdet : ∃ ds, compareProps n q1 q2 = .ok ds ∧ c ∈ changes ds) :
+    Outcome.Holds (fun ds => ∃ d ∈ ds, d.compat = Compat.Breaking) (analyse fl (n+2) a b) := by
+  obtain ⟨ds, hcmp, hmem⟩ := hdet
+  obtain ⟨td, htd, hch⟩ := List.mem_map.mp hmem
+  refine analyse_reports_body_change fl (n+2) a b pl hpl um1 um2 hum2 hf name p1 p2 hp1 hp2 sc1 sc2 e1 e2 ?_
+  intro cl st' hcl
+  exact compareSchema_hits_property _ n cl hcl sc1 sc2 st' o1 o2 hroot prop q1 q2 m1 m2 u1 u2 r1 r2 ds hcmp td htd
+    (by rw [hch]; exact narrowing_is_a_change c hc) (by rw [hch]; exact policy_sound_request c hc)
+
+/-- non-vacuity: a body object whose property `name` loses maximum length -/
+def bodyObj (m : Int) : Schema :=
+  { type := ["object"], hasProps := true, props := [("name", { type := ["string"], v := { maxLength := some m } }), ("n", { type := ["integer"] })] }
+def paramBody (m : Int) : Param := { name := "body", loc := "body", chain := [{}], schema := some (bodyObj m) }
+def opBody (m : Int) : Operation := { method := "post", params := [paramBody m], responses := [{ code := 200, desc := "ok" }] }
+def specBody (m : Int) : Spec := { paths := [{ url := "/a", ops := [opBody m] }] }
+def umBody (m : Int) : UM := { url := "/a", method := "post", item := { url := "/a", ops := [opBody m] }, op := opBody m }
+
+example : Outcome.Holds (fun ds => ∃ d ∈ ds, d.compat = Compat.Breaking) (analyse {} 5 (specBody 10) (specBody 5)) :=
+  body_property_change_reported_breaking {} 3 (specBody 10) (specBody 5) "body" (by decide) (umBody 10) (umBody 5)
+    (show umBody 5 ∈ [umBody 5] from List.mem_cons_self) rfl "body" (paramBody 10) (paramBody 5) rfl
+    (show ("body", paramBody 5) ∈ [("body", paramBody 5)] from List.mem_cons_self)
+    (bodyObj 10) (bodyObj 5) rfl rfl ⟨rfl, rfl, rfl, by decide⟩ ⟨rfl, rfl, rfl, by decide⟩ rfl
+    "name" _ _ (List.mem_cons_self) (List.mem_cons_self)
+    (by intro y hy e; simp [bodyObj] at hy; rcases hy with h | h <;> simp_all)
+    (by intro y hy e; simp [bodyObj] at hy; rcases hy with h | h <;> simp_all)
+    rfl rfl Code.NarrowedType (by decide)
+    (detected_maxLength_lower 3 _ _ 10 5 rfl rfl rfl rfl rfl rfl rfl (by decide))
+example : (analyse {} 5 (specBody 10) (specBody 5)).isOk = true := by decide
 
 /-- non-vacuity of the two structural liftings: an endpoint removed, a required parameter added -/
 def specNone : Spec := { paths := [] }
